@@ -82,6 +82,123 @@ for W in (8, 16, 32, 64):
             enforce=[full], functions=[full], route="unbounded", tier=tier, timeout=240,
             assumptions=SAFETY_ASSUME, foreach=[{"SZ": W // 8}], **kw)
 
+# ------------------------------------------------------------------ rung 1 (b): digit arrays, value contracts (bounded by capacity)
+MEM_ASSUME = "libc model: memset/memcpy/memmove are the byte loops of stubs/bn.h (cbmc 6.11's builtin array_replace model is imprecise for arrays of digits wider than 8 bit with symbolic length)"
+def memcfg(W, nbytes, uses_mem):
+    """(extra defines, cbmc unwind flags tail, assumptions) for code that calls memset/memcpy/memmove"""
+    if W > 8 and uses_mem:
+        k = nbytes + 2
+        return (["VF_BN_MEM_MODELS"],
+                ["--unwindset", "memset.0:%d,memcpy.0:%d,memmove.0:%d,memmove.1:%d" % (k, k, k, k)],
+                [MEM_ASSUME])
+    return ([], [], [])
+
+USES_MEM = {"assign_zero", "l_shift", "r_shift", "sub__int", "sub"}
+for W, nd, tier in ((8, 4, "quick"), (64, 4, "quick"), (16, 4, "thorough"), (32, 4, "thorough"), (8, 8, "thorough")):
+    for fn, lf in R1A.items():
+        full = "bn_digits_" + fn
+        d, uw, asm = memcfg(W, nd * W // 8, fn in USES_MEM)
+        job("r1b.%s.value.w%d.n%d" % (full, W, nd), "digits.c",
+            cfg(W, True, bitlen=W * nd, extra=["VF_FN_" + fn] + d),
+            enforce=[full], functions=[full], route="bounded",
+            bound="count <= %d digits of %d bit (symbolic count, content and aliasing)" % (nd, W),
+            tier=tier, timeout=300, assumptions=asm,
+            cbmc=["--unwind", str(nd + 2)] + uw + ["--unwinding-assertions"])
+
+# ------------------------------------------------------------------ rung 1 (c): bn_t level value contracts (bounded by capacity)
+R1C = ["init", "calc_digits", "update", "init_digits__int", "update_digits__int", "calc_bits", "ctz", "clz",
+       "is_zero", "is_one", "is_pow2", "is_even", "is_odd", "cmp", "is_equal", "is_bit_set", "bit_set",
+       "assign", "assign_init", "assign_zero", "assign_2exp", "assign_digit", "l_shift", "r_shift",
+       "and", "or", "xor", "add_digit", "add", "sub_digit", "sub"]
+R1C_MEM = {"assign", "assign_init", "l_shift", "r_shift", "sub"}
+for W, nd, tier in ((8, 4, "quick"), (64, 4, "quick"), (16, 4, "thorough"), (32, 4, "thorough"), (8, 8, "thorough")):
+    for fn in R1C:
+        full = "bn_" + fn
+        d, uw, asm = memcfg(W, nd * W // 8, fn in R1C_MEM)
+        job("r1c.%s.w%d.n%d" % (full, W, nd), "bn1.c",
+            cfg(W, True, bitlen=W * nd, extra=["VF_FN_" + fn] + d),
+            enforce=[full], functions=[full], route="bounded",
+            bound="capacity BN_MAX_DIGITS = %d digits of %d bit (symbolic count, digits, stale digits, aliasing)" % (nd, W),
+            tier=tier, timeout=300, assumptions=asm,
+            cbmc=["--unwind", str(nd + 2)] + uw + ["--unwinding-assertions"])
+
+# ------------------------------------------------------------------ rung 1 (d): import / export
+IO_FNS = ["import_be_bin", "import_le_bin", "import_be_hex", "import_le_hex",
+          "export_be_bin", "export_le_bin", "export_be_hex", "export_le_hex"]
+IO_MEM = {"import_be_bin", "import_le_bin", "import_be_hex", "import_le_hex", "export_be_bin", "export_le_bin", "export_be_hex", "export_le_hex"}
+# value contracts at the bn_t level, bounded: (W, digits, max buffer bytes, tier)
+for W, nd, mb, tier in ((8, 6, 8, "quick"), (64, 2, 18, "thorough"), (32, 2, 10, "thorough"), (16, 3, 8, "thorough")):
+    for fn in IO_FNS:
+        if W == 64 and fn.startswith("export") and fn.endswith("hex"):
+            continue  # symex runs out of memory (12 GB) - listed in not_covered
+        full = "bn_" + fn
+        hexfn = fn.endswith("hex")
+        bufmax = mb if not hexfn else min(mb, 10)
+        d, uw, asm = memcfg(W, max(nd * W // 8, bufmax) + 1, True)
+        plain = fn in ("export_be_hex", "export_le_hex")
+        job("r1d.%s.w%d.n%d" % (full, W, nd), "io.c",
+            cfg(W, True, bitlen=W * nd, extra=["VF_FN_" + fn, "VF_IO_MAXBUF=%d" % bufmax] + d),
+            enforce=[] if plain else [full], mode="plain" if plain else "dfcc",
+            functions=[full, "bn_digits_" + fn], route="bounded",
+            bound="capacity %d digits of %d bit, buffer <= %d bytes (symbolic sizes, content, flags, stale digits)" % (nd, W, bufmax),
+            tier=tier, timeout=600, assumptions=asm, foreach=[{"W": W}],
+            cbmc=["--unwind", str(max(nd * W // 8, bufmax) + 3)] + uw + ["--unwinding-assertions"])
+
+# ------------------------------------------------------------------ rung 2: multiplicative layer (modular, W=8, small capacities)
+def vb(bitlen):  # narrow spec vector for product/division specs
+    return ["VF_BN_VBITS=%d" % (2 * bitlen + 16)]
+R2 = [
+ # (key, enforced, replaced callees, digit counts quick, thorough)
+ ("digits_mult_digit", "bn_digits_mult_digit__int", ["bn_digit_mult__int", "bn_digits_l_shift", "bn_digit_ctz"], (2,), (3,)),
+ ("digits_add_digit_mult", "bn_digits_add_digit_mult__int", ["bn_digit_mult__int", "bn_digits_add", "bn_digits_add_digit"], (2,), (3,)),
+ ("digits_sub_digit_mult", "bn_digits_sub_digit_mult__int", ["bn_digit_mult__int", "bn_digits_sub__int", "bn_digits_sub_digit"], (2,), (3,)),
+ ("mult", "bn_mult", ["bn_digits_add_digit_mult__int", "bn_assign_init", "bn_cmp", "bn_is_zero", "bn_assign_zero", "bn_init_digits__int", "bn_update_digits__int"], (2,), (3,)),
+ ("square", "bn_square", ["bn_mult"], (2,), (4,)),
+ ("mult_digit", "bn_mult_digit", ["bn_digits_mult_digit__int", "bn_add", "bn_assign_init", "bn_is_zero", "bn_assign_zero", "bn_init_digits__int", "bn_update_digits__int"], (3,), (4,)),
+]
+for key, full, repl, qn, tn in R2:
+    for nd in tuple(qn) + tuple(tn):
+        tier = "quick" if nd in qn else "thorough"
+        W = 8
+        job("r2.%s.w%d.n%d" % (full, W, nd), "bn2.c",
+            cfg(W, True, bitlen=W * nd, extra=["VF_FN_" + key] + vb(W * nd)),
+            enforce=[full], replace=repl, functions=[full], route="bounded",
+            bound="W = 8, capacity %d digits (symbolic count, digits, stale digits, aliasing); callees replaced by their rung 0/1 contracts" % nd,
+            tier=tier, timeout=600, cbmc=["--unwind", str(nd + 2), "--unwindset", "__CPROVER_contracts_write_set_check_assigns_clause_inclusion.0:40,__CPROVER_contracts_write_set_check_frees_clause_inclusion.0:40", "--unwinding-assertions", "--object-bits", "10"])
+
+# ------------------------------------------------------------------ rung 3, straight-line modular compositions (modular proofs)
+R3 = [
+ ("mod", "bn_mod", ["bn_div"], True),
+ ("mod_add", "bn_mod_add", ["bn_add", "bn_cmp", "bn_sub"], False),
+ ("mod_sub", "bn_mod_sub", ["bn_cmp", "bn_add", "bn_sub", "bn_mod"], True),
+ ("mod_mult", "bn_mod_mult", ["bn_mult", "bn_mod"], True),
+ ("mod_mult_digit", "bn_mod_mult_digit", ["bn_mult_digit", "bn_mod"], True),
+ ("mod_square", "bn_mod_square", ["bn_mod_mult"], True),
+ ("mod_reduce", "bn_mod_reduce", ["bn_cmp", "bn_assign_init", "bn_sub_digit", "bn_mod", "bn_add_digit"], True),
+]
+for key, full, repl, nonlinear in R3:
+    confs = [(8, 2, "thorough", 32)] if nonlinear else []
+    confs += [(8, 4, "quick" if not nonlinear else "thorough", 32 + 0)]
+    if not nonlinear:
+        confs += [(64, 4, "quick", 256), (64, 22, "thorough", 1408)]
+    if key == "mod_sub":
+        confs = [(8, 2, "quick", 16), (8, 4, "thorough", 32)]
+    if key == "mod":
+        confs = [(8, 2, "quick", 16), (8, 4, "thorough", 32)]
+    for W, nd, tier, _ in confs:
+        extra = ["VF_FN_" + key]
+        if nonlinear:
+            extra += vb(W * nd)
+        if nd == 22:
+            extra += ["BN_NO_POINTERS_CHK", "BN_MOD_REDUCE_ALGO=BN_MOD_REDUCE_ALGO_BASIC"]
+        job("r3.%s.w%d.n%d" % (full, W, nd), "bn3.c",
+            cfg(W, True, bitlen=W * nd, extra=extra),
+            enforce=[full], replace=repl, functions=[full],
+            route="bounded" if nonlinear else "finite",
+            bound=("W = %d, capacity %d digits; callees replaced by their contracts" % (W, nd)) if nonlinear else "",
+            tier=tier, timeout=600, backend="kissat" if nonlinear else "sat",
+            cbmc=["--unwind", str(nd + 2), "--unwindset", "__CPROVER_contracts_write_set_check_assigns_clause_inclusion.0:40,__CPROVER_contracts_write_set_check_frees_clause_inclusion.0:40", "--unwinding-assertions", "--object-bits", "10"])
+
 json.dump({
     "property": "C01", "level": "proof",
     "defaults": {"tier": "quick", "mode": "dfcc", "timeout": 300},
